@@ -175,6 +175,8 @@ where
         "push_borrowed": caps.push_borrowed.is_some(), "get": caps.get.is_some(), "cmp": caps.cmp.is_some(),
         "heap": caps.has_heap, "reserve_regions": caps.has_reserve_regions,
     });
+    let mut caps = caps;
+    caps.seq_owned = matches!(R::shape()["k"].as_str(), Some("slice") | Some("columns") | Some("owned"));
     let caps = Rc::new(caps);
     out.push(Subject {
         name,
